@@ -33,7 +33,7 @@ def cross_links(spec):
 
 
 def has_gold(spec):
-    return any(c['gov'] in ('GOLD', 'GOLDCB') for c in spec['countries'])
+    return any(c['gov'] in ('GOLD', 'GOLDCB') for c in spec['countries']) or bool(spec.get('manual_gold'))
 
 
 def units(tier):
@@ -44,7 +44,10 @@ def units(tier):
             neg = json.loads(json.dumps(spec))
             neg['ext'] = None
             neg['xr'] = {}
-            out.append({'family': fam, 'labels': labels + ['no-external-sector'], 'spec': neg, 'neg': True})
+            neg.pop('manual_gold', None)      # (a harness-level call on the external sector: not part of the negative family)
+            neg.pop('late_region', None)
+            if cross_links(neg) or has_gold(neg):
+                out.append({'family': fam, 'labels': labels + ['no-external-sector'], 'spec': neg, 'neg': True})
     return out
 
 
@@ -147,21 +150,23 @@ def check_spec(spec, labels):
                     V('foreign-supplier-cashflow-wrong', 'period %d: %s receives %s for its exports, expected %s' % (k, fname, got, want))
         # gold purchases: the buyer pays `purchase` in its currency; the gold market is credited its numeraire value
         gold_buyers = [c for c in spec['countries'] if c['gov'] in ('GOLD', 'GOLDCB')]
-        if gold_buyers:
+        if gold_buyers or spec.get('manual_gold'):
             gold = m.ExternalSector['GOLD']
             netoz = gold.GetVariableName('NETOZ')
             price = gold.GetVariableName('PRICE')
             want_oz = 0
             gold_num = 0
-            for c in gold_buyers:
-                gov = S[(c['code'], 'GOV' if c['gov'] == 'GOLD' else 'CB')]
-                pur = s[gov.GetVariableName('GOLDPURCHASES')]
+            buyers = [(c, S[(c['code'], 'GOV' if c['gov'] == 'GOLD' else 'CB')], 'GOLDPURCHASES') for c in gold_buyers]
+            if spec.get('manual_gold'):
+                buyers.append((by[spec['manual_gold']], S[(spec['manual_gold'], 'GB')], 'GOLDBUY'))
+            for c, gov, purvar in buyers:
+                pur = s[gov.GetVariableName(purvar)]
                 x = s[xrname[c['cur']]]
                 want_oz += x * pur
                 gp = gov.GetVariableName('GOLDPRICE')
                 if s[gp] != s[price] / x:
                     V('gold-price-wrong', 'period %d: %s = %s, expected PRICE/XR = %s' % (k, gp, s[gp], s[price] / x))
-                fterm = sum(v for names, v in exact.term_values(eqs[gov.GetVariableName('F')], s) if gov.GetVariableName('GOLDPURCHASES') in names)
+                fterm = sum(v for names, v in exact.term_values(eqs[gov.GetVariableName('F')], s) if gov.GetVariableName(purvar) in names)
                 if fterm != -pur:
                     V('gold-buyer-debit-wrong', 'period %d: buyer books %s for a purchase of %s' % (k, fterm, pur))
                 if pur != 0 and x != 1:
